@@ -2590,7 +2590,9 @@ propagate_constraint_check_result(Result r, Ternary& open) {
   case V_EQ:
     return false;
   default:
-    PPL_UNREACHABLE;
+    // No information on the relation between the computed and the exact
+    // value (e.g., an overflow in a fused multiply-add on a bounded
+    // integer type): the bound cannot be used for refining.
     return true;
   }
 }
